@@ -27,6 +27,7 @@ type parseResult struct {
 	kind     string
 	payload  string
 	pos      bool
+	hasLine  bool   // the error names a line
 	msg      string // message without prefix and position
 	panicked string
 }
@@ -108,6 +109,7 @@ func implParse(q string) (res parseResult) {
 		r := parseResult{pos: true, line: 1}
 		if m[1] != "" {
 			r.line, _ = strconv.Atoi(m[1])
+			r.hasLine = true
 		}
 		r.col, _ = strconv.Atoi(m[2])
 		r.msg = strings.ReplaceAll(m[3], "\x00", "\n")
@@ -116,11 +118,7 @@ func implParse(q string) (res parseResult) {
 	}
 	r := parseResult{pos: false}
 	r.msg = strings.TrimPrefix(msg, "cannot parse expression: ")
-	if strings.HasPrefix(r.msg, "internal error: cannot have asterisk accessor") {
-		r.kind = "internal-star"
-	} else {
-		r.kind = "other"
-	}
+	r.kind = "other"
 	return r
 }
 
@@ -305,6 +303,12 @@ func parseOracles(q string, r parseResult, shifts []int, add func(violation)) {
 		if r.col < 1 || r.line < 1 || r.line > n || r.col > lens[r.line-1]+1 {
 			v("C19", "position-out-of-range", fmt.Sprintf("line %d col %d (lines %d)", r.line, r.col, n))
 		}
+		if n > 1 && !r.hasLine {
+			v("C19", "no-line-for-a-query-of-several-lines", fmt.Sprintf("col %d (lines %d): %s", r.col, n, r.msg))
+		}
+	} else {
+		// C19: every parse error names a column (and a line when the query has several)
+		v("C19", "parse-error-without-position", r.msg)
 	}
 	// C19 shift (metamorphic)
 	for _, k := range shifts {
